@@ -13,13 +13,17 @@ import (
 	"math/rand"
 	"sort"
 	"strings"
+	"time"
 
 	"github.com/mosaicnetworks/babble/src/common"
+	"github.com/mosaicnetworks/babble/src/config"
 	"github.com/mosaicnetworks/babble/src/crypto/keys"
 	hg "github.com/mosaicnetworks/babble/src/hashgraph"
 	bnet "github.com/mosaicnetworks/babble/src/net"
+	"github.com/mosaicnetworks/babble/src/node"
 	_state "github.com/mosaicnetworks/babble/src/node/state"
 	"github.com/mosaicnetworks/babble/src/peers"
+	"github.com/mosaicnetworks/babble/src/proxy/inmem"
 )
 
 func init() {
@@ -532,6 +536,10 @@ func runFF(r *Result, thorough bool, prop string) {
 				}
 				victim.store.Close()
 			}
+			// nodes in any state: a joining node whose handshake was answered by a stranger
+			for k := 0; k < 4; k++ {
+				joinThenFF(r, rng, blk0)
+			}
 			// a valid honest response must still be accepted (the check must not refuse everything)
 			var b hg.Block
 			var f hg.Frame
@@ -557,8 +565,11 @@ func runFF(r *Result, thorough bool, prop string) {
 
 // forgeResponse: fresh keys, self-made set, consistent frame and block signed by all of them.
 func forgeResponse(rng *rand.Rand, n int, like *hg.Block) (*hg.Block, *hg.Frame) {
-	ps := newParticipants(rng, n)
-	pl := []*peers.Peer{}
+	return forgeResponseBy(newParticipants(rng, n), like)
+}
+
+func forgeResponseBy(ps []*participant, like *hg.Block, extraPeers ...*peers.Peer) (*hg.Block, *hg.Frame) {
+	pl := append([]*peers.Peer{}, extraPeers...)
 	roots := map[string]*hg.Root{}
 	for _, p := range ps {
 		pl = append(pl, p.peer)
@@ -585,6 +596,114 @@ func forgeResponse(rng *rand.Rand, n int, like *hg.Block) (*hg.Block, *hg.Frame)
 func nodeLevelFF(r *Result, rng *rand.Rand, cl *cluster, blk0 *hg.Block, frm0 *hg.Frame, src *member) {
 	for kind := 0; kind < 3; kind++ {
 		nodeLevelFFKind(r, rng, cl, blk0, frm0, src, kind)
+	}
+	joinThenFF(r, rng, blk0)
+}
+
+// joinThenFF: "for nodes in any state" — a node outside its configured validator set first runs
+// the join handshake. Whoever sits at the address of a configured peer answers the JoinRequest
+// ("accepted", with a peer list of its own making) and then serves a forged, internally consistent
+// fast-forward response signed by strangers. An unauthenticated JoinResponse gives the node no
+// reason to trust anybody: the fast-forward must still be refused.
+func joinThenFF(r *Result, rng *rand.Rand, like *hg.Block) {
+	configured := newParticipants(rng, 2+rng.Intn(3))
+	strangers := newParticipants(rng, 1+rng.Intn(4))
+	me := newParticipants(rng, 1)[0]
+	me.peer.NetAddr = fmt.Sprintf("inmem-joiner-%d", rng.Int63())
+	me.peer.Moniker = "joiner"
+	_, evil := bnet.NewInmemTransport(fmt.Sprintf("inmem-evil-%d", rng.Int63()))
+	_, trans := bnet.NewInmemTransport(me.peer.NetAddr)
+	pl := []*peers.Peer{}
+	for i, p := range configured {
+		p.peer.NetAddr = fmt.Sprintf("inmem-cfg-%d-%d", rng.Int63(), i)
+		pl = append(pl, p.peer)
+		trans.Connect(p.peer.NetAddr, evil)
+	}
+	sl := []*peers.Peer{}
+	for i, p := range strangers {
+		p.peer.NetAddr = fmt.Sprintf("inmem-str-%d-%d", rng.Int63(), i)
+		sl = append(sl, p.peer)
+		trans.Connect(p.peer.NetAddr, evil)
+	}
+	evil.Connect(me.peer.NetAddr, trans)
+	conf := config.NewDefaultConfig()
+	conf.LogLevel = "panic"
+	conf.EnableFastSync = true
+	conf.JoinTimeout = 200 * time.Millisecond
+	conf.HeartbeatTimeout = 10 * time.Millisecond
+	a := newApp()
+	victim := node.NewNode(conf, node.NewValidator(me.key, "joiner"), peers.NewPeerSet(append([]*peers.Peer{}, pl...)), peers.NewPeerSet(append([]*peers.Peer{}, pl...)), hg.NewInmemStore(1000), trans, inmem.NewInmemProxy(a, quiet()))
+	victim.VerifCore().SetHeadAndSeq()
+	victim.SetState(_state.Joining)
+	// what the responder claims: variants of the peer list and of the forged frame
+	variant := rng.Intn(4)
+	claimed := append([]*peers.Peer{}, sl...)
+	switch variant {
+	case 0: // strangers + the joiner (what an honest network would answer, with other keys)
+		claimed = append(claimed, me.peer)
+	case 1: // strangers only
+	case 2: // configured peers + strangers + the joiner
+		claimed = append(append(claimed, pl...), me.peer)
+	case 3: // nothing
+		claimed = nil
+	}
+	var fb *hg.Block
+	var ff *hg.Frame
+	if rng.Intn(2) == 0 {
+		fb, ff = forgeResponseBy(strangers, like)
+	} else {
+		fb, ff = forgeResponseBy(strangers, like, me.peer) // the joiner is a member, only strangers signed
+	}
+	r.Inc(fmt.Sprintf("join_then_ff_variant_%d", variant), 1)
+	stop := make(chan struct{})
+	go func() {
+		for {
+			select {
+			case rpc := <-evil.Consumer():
+				switch rpc.Command.(type) {
+				case *bnet.JoinRequest:
+					rpc.Respond(&bnet.JoinResponse{FromID: configured[0].peer.ID(), Accepted: true, AcceptedRound: 0, Peers: claimed}, nil)
+				case *bnet.FastForwardRequest:
+					rpc.Respond(&bnet.FastForwardResponse{FromID: strangers[0].peer.ID(), Block: *fb, Frame: *ff, Snapshot: []byte("evil snapshot")}, nil)
+				default:
+					rpc.Respond(nil, fmt.Errorf("busy"))
+				}
+			case <-stop:
+				return
+			}
+		}
+	}()
+	defer close(stop)
+	jcls, jdet := guarded(func() error { return victim.VerifJoin() })
+	r.Inc("join_then_ff_join_"+jcls, 1)
+	if jcls == "panic" {
+		r.Violate("impl-violation", "Node.join panicked on a hostile JoinResponse: "+jdet, "join-panic", nil)
+		return
+	}
+	r.Inc("join_then_ff_state_"+victim.GetState().String(), 1)
+	victim.SetState(_state.CatchingUp)
+	stateBefore := append([]byte{}, a.state...)
+	restoredBefore := a.restored
+	cls, det := guarded(func() error { return victim.VerifFastForward() })
+	r.Inc("join_then_ff_"+cls, 1)
+	strangerIn := func(ps *peers.PeerSet) bool {
+		if ps == nil {
+			return false
+		}
+		for _, p := range strangers {
+			if _, ok := ps.ByPubKey[p.peer.PubKeyString()]; ok {
+				return true
+			}
+		}
+		return false
+	}
+	if cls == "ok" || victim.VerifCore().Hashgraph().Store.LastBlockIndex() >= 0 || strangerIn(victim.VerifCore().Validators()) {
+		r.Violate("impl-violation", fmt.Sprintf("after a join handshake answered by a stranger (peer list variant %d) the node reset to a block signed only by strangers (%s %s)", variant, cls, det),
+			"join-then-ff-accepted", map[string]interface{}{"variant": variant})
+	}
+	if a.restored != restoredBefore || !bytes.Equal(a.state, stateBefore) {
+		r.Violate("impl-violation", fmt.Sprintf("after a join handshake answered by a stranger the application was restored from the strangers' snapshot (%s %s)", cls, det),
+			"join-then-ff-restored", map[string]interface{}{"variant": variant})
 	}
 }
 
